@@ -110,7 +110,7 @@ def same_shape(a, values):
 
 
 def pres_choice(rng):
-    return {"wells": rng.choice(PRESENT), "vols": rng.choice(PRESENT), "num": rng.choice(["float", "int", "np", "float"]),
+    return {"wells": rng.choice(PRESENT), "vols": rng.choice(PRESENT), "num": rng.choice(["float", "int", "np", "float", "npint"]),
             "dwells": rng.choice(PRESENT)}
 
 
@@ -339,7 +339,7 @@ def random_kw(rng):
             kw["tip"] = {"k": "one", "s": rng.choice([["int", rng.randint(1, 8)], ["tip", rng.randint(1, 8)], ["any"]])}
         else:
             kw["tip"] = {"k": "coll", "x": [[rng.choice(["int", "tip"]), rng.randint(1, 8)] for _ in range(n)],
-                         "present": rng.choice(["list", "tuple"])}
+                         "present": rng.choice(["list", "tuple", "list", "set"])}
     for f in ("rackid", "racktype", "tube", "frt"):
         if rng.random() < 0.3:
             kw[f] = rng.choice(["id-1", "Greiner 96", "X" * 32, "b"])
